@@ -646,11 +646,12 @@ theorem baryCoeffs_eq_field (w : Weights F) (z : F) :
 
 end field
 
-/-- nothing the translator emitted is left without a tie theorem (the four protocol functions
-`commit`, `generateChallenges`, `CreateIPAProof`, `CheckIPAProof` are tied in `Tie/Protocol.lean`) -/
+/-- nothing the translator emitted is left without a tie theorem (the protocol functions `commit`,
+`generateChallenges`, `CreateIPAProof`, `CheckIPAProof`, `CheckMultiProof`, `domainToFr` are tied in `Tie/Protocol.lean`) -/
 theorem all_translated_tied : Gen.Loops.translated =
-    ["BatchInvert", "CheckIPAProof", "ComputeBarycentricCoefficients", "CreateIPAProof", "DivideOnDomain", "InnerProd",
-     "NewPrecomputedWeights", "PowersOf", "absInt", "commit", "computeBarycentricWeightForElement", "foldPoints",
-     "foldScalars", "generateChallenges", "getInvertedElement", "getRatioOfWeights", "splitPoints", "splitScalars"] := by decide
+    ["BatchInvert", "CheckIPAProof", "CheckMultiProof", "ComputeBarycentricCoefficients", "CreateIPAProof",
+     "DivideOnDomain", "InnerProd", "NewPrecomputedWeights", "PowersOf", "absInt", "commit",
+     "computeBarycentricWeightForElement", "domainToFr", "foldPoints", "foldScalars", "generateChallenges",
+     "getInvertedElement", "getRatioOfWeights", "splitPoints", "splitScalars"] := by decide
 
 end GoIpa.Tie.Loops
